@@ -120,7 +120,7 @@ let () = register "c02model" (function
              ^ " | " ^ dec)))
   | _ -> "ERROR bad arguments for c02model")
 
-(* c08spec <bits> -> <variant class> <length ok> <text pad zero> <raw unnormalised> <empty_text guard hit> | None *)
+(* c08spec <bits> -> <variant class> <length ok> <text pad zero> <raw unnormalised> <empty_text><pad_dropped> | None *)
 let () = register "c08spec" (function
   | [bits] ->
     let b = bits_of_string bits in
@@ -128,7 +128,8 @@ let () = register "c08spec" (function
      | None -> "None"
      | Some v ->
        ocaml_string (variant_class v) ^ " " ^ str_bool (c08_length_ok v (nat_of_int (List.length b))) ^ " "
-       ^ str_bool (text_pad_zero v b) ^ " " ^ str_bool (raw_unnormalised v b) ^ " " ^ str_bool (c08_empty_text v b))
+       ^ str_bool (text_pad_zero v b) ^ " " ^ str_bool (raw_unnormalised v b) ^ " "
+       ^ str_bool (c08_empty_text v b) ^ str_bool (c08_pad_dropped v b))
   | _ -> "ERROR bad arguments for c08spec")
 
 (* c08lengths <variant class> -> the lengths C08 quantifies over, ascending *)
